@@ -32,8 +32,9 @@ RULE = (
     "deferred column, append to a loaded / unloaded collection, pending backref mutation, info, refresh, flush) x pickle "
     "protocols 2-5; load paths: all alternating mapper/property paths up to length 5 over two classes with every "
     "aliased/plain marking; Rows and FrozenResults of generated Core and ORM column SELECTs (labels, expressions, "
-    "repeated columns); ext.serializer on statements over generated table/column names (incl. ':' , newline, dots, "
-    "spaces) and over the mapped classes (entities, attributes, relationship properties, aliased). non-trivial = the "
+    "repeated columns, a Column whose key differs from its name); ext.serializer on statements over generated "
+    "table/column names (incl. ':' , newline, dots, spaces), over schema-qualified tables (SQLite ATTACHed schema with a "
+    "same-named table in the default schema, different rows) and over the mapped classes (entities, attributes, relationship properties, aliased). non-trivial = the "
     "object is not a pristine transient / the path has >= 2 elements / the SELECT has >= 2 columns / the statement has >= 2 "
     "persistent ids"
 )
@@ -369,6 +370,9 @@ def _env():
         z = Column(Integer)
         a = relationship("A", back_populates="bs")
 
+    from sqlalchemy import Table
+
+    kt = Table("kt", Base.metadata, Column("id", Integer, primary_key=True), Column("name", Integer, key="k"))
     A_.__name__ = A_.__qualname__ = "A"
     B_.__name__ = B_.__qualname__ = "B"
     A_.__module__ = B_.__module__ = __name__
@@ -380,6 +384,7 @@ def _env():
     Base.metadata.create_all(eng)
     with Session(eng) as s:
         s.add_all([A(id=1, x=5, y=6, bs=[B(id=1, z=1), B(id=2, z=2)]), A(id=2, x=7, y=8), B(id=3, z=3)])
+        s.execute(kt.insert(), [{"id": 1, "k": 7}, {"id": 2, "k": 9}])
         s.commit()
     _ENV.update(Base=Base, eng=eng, classes=[A, B], propkeys=["bs", "a", "x", "z", "y", "id", "a_id"])
     return _ENV
@@ -540,6 +545,9 @@ def _select(orm, cols):
     from sqlalchemy import literal, select
 
     env = _env()
+    if orm == 2:  # Core table with a Column whose .key differs from its name
+        kt = env["Base"].metadata.tables["kt"]
+        return select(kt).order_by(kt.c.id)
     t = env["Base"].metadata.tables["a"] if not orm else None
     exprs = []
     for n, (kind, which, arg) in enumerate(cols):
@@ -577,7 +585,7 @@ def _impl_row(c):
         return [2, len(objs) - 1]
 
     with Session(env["eng"]) as s:
-        res = s.execute(stmt) if orm else s.connection().execute(stmt)
+        res = s.execute(stmt) if orm == 1 else s.connection().execute(stmt)
         row = res.all()[0]
     md = row._parent
     keys = [_crc(str(k)) for k in md._keys]
@@ -613,19 +621,41 @@ def _impl_frozen(c):
     _, orm, cols, proto = c["in"]
     stmt = _select(orm, cols)
     with Session(env["eng"]) as s:
-        fr = (s.execute(stmt) if orm else s.connection().execute(stmt)).freeze()
+        fr = (s.execute(stmt) if orm == 1 else s.connection().execute(stmt)).freeze()
+    objs = []
+
+    def kcode(k):
+        if isinstance(k, str):
+            return [0, _crc(str(k))]
+        if isinstance(k, int):
+            return [1, k]
+        for i, x in enumerate(objs):
+            if x is k:
+                return [2, i]
+        objs.append(k)
+        return [2, len(objs) - 1]
+
     keys = [_crc(str(k)) for k in fr.metadata._keys]
     rows = [[(-1 if v is None else v) for v in r] for r in fr().all()]
+    kmap, lookups, lobjs = [], [], []
+    for k, rec in fr.metadata._keymap.items():
+        if rec[0] is None:
+            continue
+        kmap.append(kcode(k) + [rec[0]])
+        lookups.append(kcode(k))
+        lobjs.append(k)
+    lookups.append([0, 424242])
+    lobjs.append("no_such_key")
     fr2 = pickle.loads(pickle.dumps(fr, proto))
-    lookups = keys + [424242]
-    names = list(fr.metadata._keys) + ["no_such_key"]
     res = []
-    for k in names:
+    for k in lobjs:
         rec = fr2.metadata._keymap.get(k)
         res.append([] if rec is None or rec[0] is None else [rec[0]])
     out = [[_crc(str(k)) for k in fr2().keys()], int(bool(fr2._source_supports_scalars)),
            [[(-1 if v is None else v) for v in r] for r in fr2().all()], res]
-    return [[3, keys, int(bool(fr._source_supports_scalars)), rows, lookups], out]
+    # for the oracle: which lookups are strings, and is the string one of the result keys
+    kinds = [[int(isinstance(k, str)), int(isinstance(k, str) and str(k) in [str(x) for x in fr.metadata._keys])] for k in lobjs]
+    return [[3, keys, int(bool(fr._source_supports_scalars)), rows, kmap, lookups], out, kinds]
 
 
 # ---------------------------------------------------------------- family 4: ext.serializer
@@ -669,6 +699,39 @@ def _impl_serializer(c):
             for t in tabs:
                 conn.execute(t.insert(), [{c_.key: 1 + i + j for j, c_ in enumerate(t.c)} for i in range(2)])
         run = lambda st: [list(r) for r in eng.connect().execute(st).all()]
+    elif world == 2:
+        # schema-qualified tables: [4, 2, form, proto]; "item" in the default schema and in the ATTACHed schema
+        # "archive" (different rows), "only" in "archive" alone
+        from sqlalchemy import event
+        from sqlalchemy.pool import StaticPool
+
+        md = MetaData()
+        item = Table("item", md, Column("id", Integer, primary_key=True), Column("label", Integer))
+        arch = Table("item", md, Column("id", Integer, primary_key=True), Column("label", Integer), schema="archive")
+        only = Table("only", md, Column("v", Integer, primary_key=True), schema="archive")
+        eng = create_engine("sqlite://", poolclass=StaticPool)
+
+        @event.listens_for(eng, "connect")
+        def _attach(dbapi_con, rec):
+            dbapi_con.execute("ATTACH DATABASE ':memory:' AS archive")
+
+        md.create_all(eng)
+        with eng.begin() as conn:
+            conn.execute(item.insert(), [{"id": 1, "label": 10}, {"id": 2, "label": 20}, {"id": 3, "label": 30}])
+            conn.execute(arch.insert(), [{"id": 1, "label": 20}, {"id": 2, "label": 77}])
+            conn.execute(only.insert(), [{"v": 4}, {"v": 5}])
+        stmt = [
+            select(arch.c.id, arch.c.label).order_by(arch.c.id),
+            select(arch).where(arch.c.id >= 2),
+            select(item.c.label, arch.c.label).join_from(item, arch, item.c.id == arch.c.id).order_by(item.c.id),
+            select(only.c.v).order_by(only.c.v),
+            select(item.c.id).where(item.c.label.in_(select(arch.c.label))).order_by(item.c.id),
+            select(arch.c.label.label("l"), item.c.label).where(arch.c.id == item.c.id).order_by(item.c.id),
+        ][spec[2] % 6]
+
+        def run(st):
+            with eng.connect() as conn:
+                return [list(r) for r in conn.execute(st).all()]
     else:
         # ORM: [4, 1, form]
         md = env["Base"].metadata
@@ -800,6 +863,12 @@ def gen_cases(rng, tier):
     for form in range(7):
         for proto in range(4):
             cases.append({"in": [4, 1, form, proto], "kind": "serializer-orm"})
+    for form in range(6):
+        for proto in range(4):
+            cases.append({"in": [4, 2, form, proto], "kind": "serializer-schema"})
+    for proto in range(2, 6):
+        cases.append({"in": [2, 2, [], proto], "kind": "row"})
+        cases.append({"in": [3, 2, [], proto], "kind": "frozen"})
     for c in cases:
         c["orig"] = c["in"]
     return cases
@@ -814,10 +883,10 @@ def nontrivial(c):
     if i[0] == 1:
         return len(i[1]) >= 2
     if i[0] in (2, 3):
-        return len(i[1] if isinstance(i[1], list) else i[2]) >= 2
+        return i[1] == 2 or len(i[1] if isinstance(i[1], list) else i[2]) >= 2
     if isinstance(i[1], list):
         return len(i[3]) >= 2
-    return i[1] == 1 or len(i[3]) + len(i[4]) >= 2
+    return i[1] in (1, 2) or len(i[3]) + len(i[4]) >= 2
 
 
 # ---------------------------------------------------------------- the property itself
@@ -852,9 +921,13 @@ def oracle(c, obs):
                 return "string key lookup %s on the unpickled row gives %s, expected %s" % (z, r, mi[3][idx])
         return None
     if fam == 3:
-        mi, out = obs
+        mi, out, kinds = obs
         if out[0] != mi[1] or out[1] != mi[2] or out[2] != mi[3]:
             return "frozen result changed: keys %s rows %s -> keys %s rows %s" % (mi[1], mi[3], out[0], out[2])
+        for (kind, z, idx), (isstr, iskey), r in zip(mi[4], kinds, out[3]):
+            if isstr and r != [idx]:
+                return "%s %s of the frozen result resolved to column %d, after pickling to %s" % (
+                    "result key" if iskey else "string alias (Column.key / table_column label)", z, idx, r)
         return None
     mi, out, same, what = obs
     if out[1] != 0:
@@ -866,7 +939,9 @@ def oracle(c, obs):
 
 def match_finding(c, what):
     i = _orig(c)
-    if i[0] == 4 and i[1] != 1 and "raised" in what:
+    if i[0] == 3 and what.startswith("string alias"):
+        return "C51-frozen-result-loses-string-aliases"
+    if i[0] == 4 and (isinstance(i[1], list) or i[1] == 0) and "raised" in what:
         if isinstance(i[1], list):  # the framework has replaced the case input by the model input (model_pair)
             used = {"".join(map(chr, t)) for t, _ in i[1]} | {"".join(map(chr, x)) for _, cs in i[1] for x in cs}
         else:
